@@ -176,7 +176,7 @@ func runCheck(p *vc.Program, prop, tier string) int {
 		solverSeconds += r.Ans.Seconds
 		if ob.Cover {
 			covers++
-			if r.Ans.Status == solve.Unsat {
+			if r.Ans.Status == solve.Unsat && strings.Contains(ob.Name, "/cover#pre") {
 				coverBad++
 				fmt.Printf("VACUOUS: %s: assumptions are contradictory\n", ob.Name)
 			}
